@@ -3,13 +3,13 @@ import Pyrtma.Proofs.ManagerOrder
 # Frames of a kind are written only where such a frame is forwarded (I/O part of a round)
 
 The chain of `Proofs/ManagerOrder.lean` (`QE B s s'`: the log grows by events none of which is a `B`-frame) for the
-operations of the I/O part of a round, under the weaker hypothesis `CtlIO B` (`B` is false on acknowledgements and
-CLIENT_INFO): it applies to `B` = "is a TIMING body" / "is a MESSAGE_TRAFFIC body", which `Ctl` excludes.
+operations of a round, under the weaker hypothesis `CtlIO B` (`B` is false on CLIENT_INFO; where an acknowledgement is sent,
+additionally `B .ack = false`): it applies to `B` = "is a TIMING body" / "is a MESSAGE_TRAFFIC body", which `Ctl` excludes.
 -/
 namespace Pyrtma.Mgr
 
-/-- `B` is false on the frames the manager originates while it handles a frame read (besides those `Tag` covers) -/
-def CtlIO (B : Body → Bool) : Prop := B .ack = false ∧ ∀ a b c d e f, B (.info a b c d e f) = false
+/-- `B` is false on CLIENT_INFO -/
+def CtlIO (B : Body → Bool) : Prop := ∀ a b c d e f, B (.info a b c d e f) = false
 
 section top
 variable (cfg : Cfg) {B : Body → Bool} (hB : Tag cfg B) (hc : CtlIO B)
@@ -53,14 +53,14 @@ theorem toLoggers_QI (f : Frame) (hf : B f.body = false) : ∀ (ls : List Nat) (
     | none => exact QE.refl B s
     | some _ => exact trySend_QI cfg hB hc s u f hf
 
-theorem sendAck_QI (s : State) (u : Nat) : QE B s (sendAck cfg s u) := by
+theorem sendAck_QI (hack : B .ack = false) (s : State) (u : Nat) : QE B s (sendAck cfg s u) := by
   unfold sendAck
   cases s.find u with
   | none => exact QE.refl B s
-  | some m => exact (trySend_QI cfg hB hc s u _ hc.1).trans (toLoggers_QI cfg hB hc _ hc.1 _ _)
+  | some m => exact (trySend_QI cfg hB hc s u _ hack).trans (toLoggers_QI cfg hB hc _ hack _ _)
 
 theorem infoOf_QI (s : State) (m : Module) : QE B s (infoOf cfg s m) := by
-  unfold infoOf; exact (logAt_QI cfg hB hc 10 s).trans (fwdTop_QI cfg hB hc _ _ (hc.2 _ _ _ _ _ _))
+  unfold infoOf; exact (logAt_QI cfg hB hc 10 s).trans (fwdTop_QI cfg hB hc _ _ (hc _ _ _ _ _ _))
 
 theorem sendInfo_QI (s : State) (u : Nat) : QE B s (sendInfo cfg s u) := by
   unfold sendInfo
@@ -127,7 +127,7 @@ theorem connect_QI (s : State) (u : Nat) (hd : Hdr) : QE B s (connectModule cfg 
         · exact h1.trans (QE_same rfl)
 
 /-- **processing a frame writes copies of that frame only** -/
-theorem process_QI (s : State) (u : Nat) (hd : Hdr) (hj : B (.data hd.k) = false) : QE B s (processMessage cfg s u hd) := by
+theorem process_QI (hack : B .ack = false) (s : State) (u : Nat) (hd : Hdr) (hj : B (.data hd.k) = false) : QE B s (processMessage cfg s u hd) := by
   unfold processMessage
   dsimp only
   split
@@ -136,14 +136,14 @@ theorem process_QI (s : State) (u : Nat) (hd : Hdr) (hj : B (.data hd.k) = false
     obtain ⟨s1, okb⟩ := r
     dsimp only at hcn ⊢
     split
-    · exact ((hcn.trans (sendAck_QI cfg hB hc s1 u)).trans (infoOf_QI cfg hB hc _ _)).trans (logAt_QI cfg hB hc 20 _)
+    · exact ((hcn.trans (sendAck_QI cfg hB hc hack s1 u)).trans (infoOf_QI cfg hB hc _ _)).trans (logAt_QI cfg hB hc 20 _)
     · exact hcn
   · split
     · exact (removeModule_QI cfg hB hc s u).trans (logAt_QI cfg hB hc 20 _)
     · split
-      · exact (addSub_QI cfg hB hc s u _).trans (sendAck_QI cfg hB hc _ u)
+      · exact (addSub_QI cfg hB hc s u _).trans (sendAck_QI cfg hB hc hack _ u)
       · split
-        · exact (removeSub_QI cfg hB hc s u _).trans (sendAck_QI cfg hB hc _ u)
+        · exact (removeSub_QI cfg hB hc s u _).trans (sendAck_QI cfg hB hc hack _ u)
         · split
           · split
             · exact (logAt_QI cfg hB hc 40 s).trans (removeModule_QI cfg hB hc _ u)
@@ -152,7 +152,7 @@ theorem process_QI (s : State) (u : Nat) (hd : Hdr) (hj : B (.data hd.k) = false
             · exact (QE_same (s' := s.upd u _) rfl).trans (sendInfo_QI cfg hB hc _ u)
             · exact (logAt_QI cfg hB hc 10 s).trans (fwdTop_QI cfg hB hc _ _ hj)
 
-theorem readOne_QI (s : State) (r : Read) (hj : B (.data r.h.k) = false) : QE B s (readOne cfg s r) := by
+theorem readOne_QI (hack : B .ack = false) (s : State) (r : Read) (hj : B (.data r.h.k) = false) : QE B s (readOne cfg s r) := by
   unfold readOne
   split
   · exact QE.refl B s
@@ -175,8 +175,8 @@ theorem readOne_QI (s : State) (r : Read) (hj : B (.data r.h.k) = false) : QE B 
               · exact rm _ h1 40
               · split
                 · exact rm _ (hb _) 30
-                · exact (hb _).trans (process_QI cfg hB hc _ _ _ hj)
-            · exact h1.trans (process_QI cfg hB hc _ _ _ hj)
+                · exact (hb _).trans (process_QI cfg hB hc hack _ _ _ hj)
+            · exact h1.trans (process_QI cfg hB hc hack _ _ _ hj)
 
 theorem foldl_fwd_QI : ∀ (fs : List Frame) (s : State), (∀ f ∈ fs, B f.body = false) → QE B s (fs.foldl (fwdTop cfg) s)
   | [], s, _ => QE.refl B s
@@ -191,6 +191,34 @@ theorem infoAll_QI : ∀ (ms : List Module) (s : State), QE B s (infoAll cfg ms 
 theorem accept_QI (s : State) : QE B s (acceptStep cfg s) := by
   unfold acceptStep
   exact (logAt_QI cfg hB hc 20 s).trans (QE_same rfl)
+
+/-- the periodic section: only the three reports carry a statistics / ACTIVE_CLIENTS body -/
+theorem ticks_QI (s : State) (h1 : ∀ a b, B (.timing a b) = false) (h2 : ∀ a b c d, B (.traffic a b c d) = false)
+    (h3 : ∀ a b c, B (.active a b c) = false) : QE B s (ticks cfg s) := by
+  unfold ticks
+  have g1 : QE B s (if cfg.timing && s.now - s.tTiming > 900 then { sendTiming cfg s with tTiming := s.now } else s) := by
+    split
+    · unfold sendTiming
+      exact ((QE_same (s' := { s with counts := [], inTraffic := true }) rfl).trans (fwdTop_QI cfg hB hc _ _ (h1 _ _))).trans (QE_same rfl)
+    · exact QE.refl B s
+  generalize (if cfg.timing && s.now - s.tTiming > 900 then { sendTiming cfg s with tTiming := s.now } else s) = s1 at g1
+  dsimp only
+  have g2 : QE B s1 (if s1.now - s1.tTraffic > 1000 then sendTraffic cfg s1 else s1) := by
+    split
+    · unfold sendTraffic
+      refine (((QE_same (s' := { s1 with inTraffic := true }) rfl).trans (logAt_QI cfg hB hc 10 _)).trans
+        (foldl_fwd_QI cfg hB hc _ _ ?_)).trans (QE_same rfl)
+      intro f hf
+      unfold trafficFrames at hf
+      obtain ⟨p, _, rfl⟩ := List.mem_map.mp hf
+      exact h2 _ _ _ _
+    · exact QE.refl B s1
+  generalize (if s1.now - s1.tTraffic > 1000 then sendTraffic cfg s1 else s1) = s2 at g2
+  refine (g1.trans g2).trans ?_
+  split
+  · unfold sendActive
+    exact (((logAt_QI cfg hB hc 10 s2).trans (infoAll_QI cfg hB hc _ _)).trans (fwdTop_QI cfg hB hc _ _ (h3 _ _ _))).trans (QE_same rfl)
+  · exact QE.refl B s2
 
 end top
 
